@@ -539,23 +539,37 @@ impl ConstructibleDb {
             else {
                 continue;
             };
-            let mut queue = eo
-                .input_types()
+            // The inputs of an error observer are built in the scope of the request handler
+            // it is invoked for: a nested blueprint may have registered a different (fallible)
+            // constructor for one of them.
+            let mut scope_ids = IndexSet::new();
+            scope_ids.insert(component_db.scope_id(error_observer_id));
+            for handler_id in component_db.request_handler_ids() {
+                if component_db
+                    .error_observers(handler_id)
+                    .is_some_and(|ids| ids.contains(&error_observer_id))
+                {
+                    scope_ids.insert(component_db.scope_id(handler_id));
+                }
+            }
+            let mut queue = scope_ids
                 .into_iter()
-                .enumerate()
-                .filter_map(|(i, input)| {
-                    if i == eo.error_input_index {
-                        return None;
-                    }
-                    Some((input.clone(), IndexSet::<Type>::new()))
+                .flat_map(|scope_id| {
+                    eo.input_types()
+                        .into_iter()
+                        .enumerate()
+                        .filter_map(move |(i, input)| {
+                            if i == eo.error_input_index {
+                                return None;
+                            }
+                            Some((scope_id, input.clone(), IndexSet::<Type>::new()))
+                        })
                 })
                 .collect_vec();
-            'inner: while let Some((input, mut dependency_chain)) = queue.pop() {
-                let Some((input_constructor_id, _)) = self.get(
-                    component_db.scope_id(error_observer_id),
-                    &input,
-                    component_db.scope_graph(),
-                ) else {
+            'inner: while let Some((scope_id, input, mut dependency_chain)) = queue.pop() {
+                let Some((input_constructor_id, _)) =
+                    self.get(scope_id, &input, component_db.scope_graph())
+                else {
                     continue 'inner;
                 };
                 if component_db.lifecycle(input_constructor_id) == Lifecycle::Singleton {
@@ -586,7 +600,7 @@ impl ConstructibleDb {
                     continue 'inner;
                 }
                 for input in c.input_types() {
-                    queue.push((input.clone(), dependency_chain.clone()));
+                    queue.push((scope_id, input.clone(), dependency_chain.clone()));
                 }
             }
         }
